@@ -13,6 +13,7 @@
          peeked ([rest_ok], [ahead_ok]).
     Nothing of the model is restated: [lex1], [lex_all], [parse_tok], [parse] are Model.v's. *)
 From OxVerif Require Import Base.Util C09.Model C09.Tokens C09.FracSweep C09.Proofs C09.Reals.
+From OxVerif Require C21.Tok.
 Require Import Lia ZifyBool.
 
 (** * Layer 1: the token sequence of [ser v] *)
@@ -433,46 +434,134 @@ Proof. exact (ser_parse_roundtrip_gen esc_iso bytes_ok lex_esc_iso_name). Qed.
 Theorem ser_parse_roundtrip_pinned : forall v, wf_pinned v = true -> parse (ser raw_name v) = Some (norm v).
 Proof. exact (ser_parse_roundtrip_gen raw_name regular_name lex1_name). Qed.
 
-(** String-level reading of the result: on ASCII names the reader's one-char-per-byte String is
-    the source String *)
+(** * String-level reading of the result (reader after fix_name_utf8: decoded name bytes that are
+    valid UTF-8 ARE the String; [name_string], [strview] in Model.v) *)
+Lemma name_string_utf8 : forall n, Tok.utf8_valid n = true -> name_string n = n.
+Proof. intros n H. unfold name_string. rewrite H. reflexivity. Qed.
+Lemma name_string_invalid : forall n, Tok.utf8_valid n = false -> name_string n = l1_utf8 n.
+Proof. intros n H. unfold name_string. rewrite H. reflexivity. Qed.
+
+(** [Tok.utf8_valid] only accepts bytes (every branch bounds the bytes it consumes by 244) *)
+Lemma utf8_valid_bytes_ok : forall n, Tok.utf8_valid n = true -> bytes_ok n = true.
+Proof.
+  intro n. remember (length n) as k eqn:K. assert (L : (length n <= k)%nat) by lia. clear K.
+  revert n L. induction k as [|k IH]; intros n L H.
+  - destruct n; [reflexivity | cbn in L; lia].
+  - destruct n as [|c r]; [reflexivity|].
+    cbn [Tok.utf8_valid] in H. cbn [length] in L.
+    change (bytes_ok (c :: r)) with (byte_ok c && bytes_ok r).
+    destruct (c <? 128) eqn:E1.
+    { apply andb_true_iff; split; [unfold byte_ok; lia | apply IH; [lia | exact H]]. }
+    destruct (Tok.btw 194 c 223) eqn:E2.
+    { destruct r as [|c1 r1]; [discriminate|]. apply andb_true_iff in H. destruct H as [H1 H].
+      change (bytes_ok (c1 :: r1)) with (byte_ok c1 && bytes_ok r1). cbn [length] in L.
+      rewrite (IH r1) by (try lia; exact H). unfold Tok.btw, Tok.cont, byte_ok in *. lia. }
+    destruct (Tok.btw 224 c 239) eqn:E3.
+    { destruct r as [|c1 [|c2 r2]]; try discriminate.
+      apply andb_true_iff in H. destruct H as [H H2]. apply andb_true_iff in H. destruct H as [H0 H1].
+      change (bytes_ok (c1 :: c2 :: r2)) with (byte_ok c1 && (byte_ok c2 && bytes_ok r2)). cbn [length] in L.
+      rewrite (IH r2) by (try lia; exact H2).
+      destruct (c =? 224); [|destruct (c =? 237)]; unfold Tok.btw, Tok.cont, byte_ok in *; lia. }
+    destruct (Tok.btw 240 c 244) eqn:E4; [|discriminate].
+    destruct r as [|c1 [|c2 [|c3 r3]]]; try discriminate.
+    apply andb_true_iff in H. destruct H as [H H3]. apply andb_true_iff in H. destruct H as [H Hc3].
+    apply andb_true_iff in H. destruct H as [H0 H1].
+    change (bytes_ok (c1 :: c2 :: c3 :: r3)) with (byte_ok c1 && (byte_ok c2 && (byte_ok c3 && bytes_ok r3))). cbn [length] in L.
+    rewrite (IH r3) by (try lia; exact H3).
+    destruct (c =? 240); [|destruct (c =? 244)]; unfold Tok.btw, Tok.cont, byte_ok in *; lia.
+Qed.
+
+Lemma utf8_valid_ascii : forall n, ascii_name n = true -> Tok.utf8_valid n = true.
+Proof.
+  induction n as [|c n IH]; intro H; [reflexivity|].
+  cbn [ascii_name forallb] in H. apply andb_true_iff in H. destruct H as [Hc Hn].
+  cbn [Tok.utf8_valid]. rewrite Hc. apply IH. exact Hn.
+Qed.
 Lemma l1_utf8_ascii : forall n, ascii_name n = true -> l1_utf8 n = n.
 Proof.
   induction n as [|c n IH]; intro H; [reflexivity|].
   cbn [ascii_name forallb] in H. apply andb_true_iff in H. destruct H as [Hc Hn].
   unfold l1_utf8. cbn [flat_map]. rewrite Hc. cbn [app]. f_equal. apply IH. exact Hn.
 Qed.
-Lemma ascii_ins_kv : forall (kv : bytes * obj) l,
-  forallb (fun kv => ascii_name (fst kv) && ascii_names (snd kv)) (kv :: l) = true ->
-  forallb (fun kv => ascii_name (fst kv) && ascii_names (snd kv)) (ins_kv kv l) = true.
+Lemma name_string_ascii : forall n, ascii_name n = true -> name_string n = n.
+Proof. intros n A. apply name_string_utf8, utf8_valid_ascii, A. Qed.
+
+(** the parser looks at a name String only to compare it with "R": the String is "R" exactly when the
+    decoded bytes are (so [parse_int]'s test on the decoded bytes is the code's test on the String) *)
+Lemma name_string_R : forall n, name_string n = name_R <-> n = name_R.
 Proof.
-  intros kv l H. rewrite forallb_forall in *. intros x Hx. apply H.
-  clear H. induction l as [|y l IH]; cbn [ins_kv] in Hx.
-  - exact Hx.
-  - destruct (bytes_leb (fst kv) (fst y)); [exact Hx|]. destruct Hx as [Hx|Hx]; [right; left; exact Hx|].
-    destruct (IH Hx) as [K|K]; [left; exact K | right; right; exact K].
+  intro n. split; intro H.
+  - unfold name_string in H. destruct (Tok.utf8_valid n) eqn:E; [exact H|].
+    exfalso. unfold name_R in H. destruct n as [|c [|c2 r]].
+    + discriminate.
+    + unfold l1_utf8 in H. cbn [flat_map app] in H. destruct (c <? 128) eqn:C; [|discriminate].
+      cbn [Tok.utf8_valid] in E. rewrite C in E. discriminate.
+    + unfold l1_utf8 in H. cbn [flat_map] in H.
+      destruct (c <? 128); destruct (c2 <? 128); cbn [app] in H; discriminate.
+  - subst n. reflexivity.
 Qed.
-Lemma strview_norm_ascii : forall v, ascii_names v = true -> strview (norm v) = norm v.
+
+Lemma strview_norm_utf8 : forall v, utf8_names v = true -> strview (norm v) = norm v.
 Proof.
   induction v using obj_ind'; intro A; try reflexivity.
   - cbn [norm]. destruct (m mod 1000000 =? 0); reflexivity.
-  - cbn [norm strview]. rewrite l1_utf8_ascii by exact A. reflexivity.
-  - cbn [norm strview]. f_equal. cbn [ascii_names] in A.
+  - cbn [norm strview]. rewrite name_string_utf8 by exact A. reflexivity.
+  - cbn [norm strview]. f_equal. cbn [utf8_names] in A.
     induction H as [|a r Pa Pr IH]; [reflexivity|].
     cbn [forallb] in A. apply andb_true_iff in A. destruct A as [Aa Ar].
     cbn [map]. rewrite (Pa Aa), (IH Ar). reflexivity.
-  - rewrite norm_dict. cbn [strview]. f_equal. cbn [ascii_names] in A.
-    assert (As : forallb (fun kv => ascii_name (fst kv) && ascii_names (snd kv)) (sort_kv l) = true).
+  - rewrite norm_dict. cbn [strview]. f_equal. cbn [utf8_names] in A.
+    assert (As : forallb (fun kv => Tok.utf8_valid (fst kv) && utf8_names (snd kv)) (sort_kv l) = true).
     { apply forallb_sort_kv. exact A. }
     pose proof (sort_kv_Forall _ _ H) as Hs.
     induction Hs as [|kv r Pk Pr IH]; [reflexivity|].
     cbn [forallb] in As. apply andb_true_iff in As. destruct As as [Ak Ar].
     apply andb_true_iff in Ak. destruct Ak as [Ak Av].
     cbn [map]. rewrite (IH Ar). destruct kv as [k x]. unfold on_snd at 1. cbn [fst snd] in *.
-    rewrite (l1_utf8_ascii k Ak), (Pk Av). reflexivity.
+    rewrite (name_string_utf8 k Ak), (Pk Av). reflexivity.
 Qed.
-Theorem ser_parse_roundtrip_strings : forall v, wf v = true -> ascii_names v = true ->
+(** ASCII names are valid UTF-8 *)
+Lemma ascii_names_utf8 : forall v, ascii_names v = true -> utf8_names v = true.
+Proof.
+  induction v using obj_ind'; intro A; try reflexivity.
+  - cbn [ascii_names utf8_names] in *. apply utf8_valid_ascii, A.
+  - cbn [ascii_names utf8_names] in *.
+    induction H as [|a r Pa Pr IH]; [reflexivity|].
+    cbn [forallb] in *. apply andb_true_iff in A. destruct A as [Aa Ar].
+    rewrite (Pa Aa), (IH Ar). reflexivity.
+  - cbn [ascii_names utf8_names] in *.
+    induction H as [|kv r Pk Pr IH]; [reflexivity|].
+    cbn [forallb] in *. apply andb_true_iff in A. destruct A as [Ak Ar].
+    apply andb_true_iff in Ak. destruct Ak as [Ak Av].
+    rewrite (utf8_valid_ascii _ Ak), (Pk Av), (IH Ar). reflexivity.
+Qed.
+
+(** THE String-level round trip: every tree whose names are Rust Strings (valid UTF-8 — every
+    Rust String is) reads back with the same Strings.  Before fix_name_utf8 this held for ASCII
+    names only (finding C09-name-nonascii, now fixed; record: Proofs.name_nonascii_refuted_pinned). *)
+Theorem ser_parse_roundtrip_strings : forall v, wf v = true -> utf8_names v = true ->
   option_map strview (parse (ser esc_iso v)) = Some (norm v).
-Proof. intros v W A. rewrite (ser_parse_roundtrip v W). cbn [option_map]. rewrite (strview_norm_ascii v A). reflexivity. Qed.
+Proof. intros v W A. rewrite (ser_parse_roundtrip v W). cbn [option_map]. rewrite (strview_norm_utf8 v A). reflexivity. Qed.
+Corollary ser_parse_roundtrip_strings_ascii : forall v, wf v = true -> ascii_names v = true ->
+  option_map strview (parse (ser esc_iso v)) = Some (norm v).
+Proof. intros v W A. apply ser_parse_roundtrip_strings; [exact W | apply ascii_names_utf8, A]. Qed.
+(** and in the form the checker of channel [ser] computes it ([parse_strings] = canon after strview) *)
+Theorem ser_parse_strings_canon : forall v, wf v = true -> utf8_names v = true ->
+  parse_strings (ser esc_iso v) = Some (canon (norm v)).
+Proof.
+  intros v W A. unfold parse_strings. rewrite (ser_parse_roundtrip v W). cbn [option_map].
+  rewrite (strview_norm_utf8 v A). reflexivity.
+Qed.
+
+(** the incremental writer's name escaper, String level: every Rust String used as a name reads
+    back as the same String (former finding C09-incr-nonascii-name, repaired by the reader fix) *)
+Theorem incr_name_roundtrip_strings : forall n, Tok.utf8_valid n = true ->
+  option_map strview (parse (ser_incr (OName n))) = Some (PName n).
+Proof.
+  intros n U. change (ser_incr (OName n)) with (ser esc_name (OName n)).
+  rewrite (ser_parse_roundtrip_gen esc_name bytes_ok lex_esc_name (OName n)) by (cbn [wf_gen]; apply utf8_valid_bytes_ok, U).
+  cbn [option_map norm strview]. rewrite (name_string_utf8 n U). reflexivity.
+Qed.
 
 (** satisfiability of the hypotheses of the continuation lemmas on a nested value followed by
     a non-trivial continuation *)
@@ -488,11 +577,15 @@ Proof. vm_compute. repeat split. Qed.
 (** * Link to the correspondence verdict: on a [wf] value the checker of channel [ser] can never
     report "model agrees with the implementation, property fails" (code 2): whenever the
     implementation's bytes and parse result equal the model's, the property bit is clear. *)
-(* FULL STATEMENT (not proved here; needs opobj_eqb-soundness and canon/strview commutation):
-     forall v bs p, wf v = true -> ascii_names v = true -> ser_code (v, bs, p) <> 2.
-   Proved: the two facts it rests on, [ser_parse_roundtrip] (bytes) and
-   [ser_parse_roundtrip_strings] (String view on ASCII names), and the first half of the
+(* FULL STATEMENT (not proved here; needs opobj_eqb-soundness):
+     forall v bs p, wf v = true -> utf8_names v = true -> ser_code (v, bs, p) <> 2.
+   Proved: the facts it rests on, [ser_parse_roundtrip] (bytes), [ser_parse_roundtrip_strings] and
+   [ser_parse_strings_canon] (String view, every valid-UTF-8 name), and the first half of the
    verdict link: a byte-identical implementation output parses, in the model, to [norm v]. *)
 Theorem ser_code_model_parse_partial : forall v bs, wf v = true -> bytes_eqb (ser esc_iso v) bs = true ->
   option_map canon (parse bs) = Some (canon (norm v)).
 Proof. intros v bs W E. apply bytes_eqb_eq in E. subst bs. rewrite (ser_parse_roundtrip v W). reflexivity. Qed.
+(** the same at the String view the checker now compares ([parse_strings]) *)
+Theorem ser_code_model_strings_partial : forall v bs, wf v = true -> utf8_names v = true ->
+  bytes_eqb (ser esc_iso v) bs = true -> parse_strings bs = Some (canon (norm v)).
+Proof. intros v bs W A E. apply bytes_eqb_eq in E. subst bs. apply ser_parse_strings_canon; assumption. Qed.
